@@ -47,11 +47,30 @@ func (m Map) validate() error {
 		if x := c.Extends; x != "" {
 			if _, ok := m.chords[x]; !ok {
 				errs = append(errs, errorx.Invalid("Chord %s Extends %s not found", c.Name, x))
+			} else if m.extendsCycle(c) {
+				errs = append(errs, errorx.Invalid("Chord %s Extends %s is cyclic", c.Name, x))
 			}
 		}
 	}
 
 	return errors.Join(errs...)
+}
+
+// extendsCycle reports whether following Extends from c comes back to a chord already seen.
+func (m Map) extendsCycle(c Chord) bool {
+	seen := map[string]bool{c.Name: true}
+	for x := c.Extends; x != ""; {
+		p, ok := m.chords[x]
+		if !ok {
+			return false
+		}
+		if seen[p.Name] {
+			return true
+		}
+		seen[p.Name] = true
+		x = p.Extends
+	}
+	return false
 }
 
 func (m Map) GetChord(nameOrDisplay string) (Chord, bool) {
